@@ -17,7 +17,7 @@ from simkit.core import HarnessError
 
 PROP = "C32"
 LEVEL = "fault_enumeration"
-TIERS = {"quick": dict(runs=64, wall=900, chunk=1), "thorough": dict(runs=400, wall=5400, chunk=1)}
+TIERS = {"quick": dict(runs=64, wall=1400, chunk=1), "thorough": dict(runs=400, wall=5400, chunk=1)}
 TIME_UNIT = "tampered archives parsed (no clock in the code under test)"
 RULE = ("one evaluation = one v1-signed APK with exactly one stored byte altered in the .SF entry or in the signature value / "
         "signed attributes / signer id of its PKCS#7 block, archive rewritten, then APK(raw).get_certificate_der(block); the "
